@@ -229,7 +229,9 @@ func c19check(stream []int, schema int) *[2]string {
 	if len(fp.got) != len(exp) {
 		return fail("message-count", "%d Kafka messages published, the stream carries %d data records", len(fp.got), len(exp))
 	}
-	kc := consumer.NewKafkaConsumer(consumer.ConsumerInput{KafkaTopic: "flows-topic", KafkaProtoSchema: mk(), MsgDelimitWithLen: true})
+	// one long-lived consumer (and schema message) for the whole stream, as in the shipped consumer
+	schemaMsg := mk()
+	kc := consumer.NewKafkaConsumer(consumer.ConsumerInput{KafkaTopic: "flows-topic", KafkaProtoSchema: schemaMsg, MsgDelimitWithLen: true})
 	for i, pm := range fp.got {
 		if pm.Topic != "flows-topic" {
 			return fail("topic", "message %d published on topic %q", i, pm.Topic)
@@ -268,6 +270,17 @@ func c19check(stream []int, schema int) *[2]string {
 		}
 		if err := kc.DecodeAndPrintMsg(&sarama.ConsumerMessage{Topic: pm.Topic, Value: b}); err != nil {
 			return fail("consumer", "the consumer-side decoder refuses message %d: %v", i, err)
+		}
+		// ... and recovers the same values: what it decoded must equal an independent decode of the payload
+		if !proto.Equal(schemaMsg, out) {
+			cv := reflect.ValueOf(schemaMsg).Elem()
+			diff := ""
+			for f, want := range e.want {
+				if got := fmt.Sprint(cv.FieldByName(f).Interface()); got != want {
+					diff = fmt.Sprintf("%s = %q, the record has %q", f, short([]byte(got)), short([]byte(want)))
+				}
+			}
+			return fail("consumer-values", "the consumer-side decoder accepts message %d but does not recover its values (%s)", i, diff)
 		}
 	}
 	return nil
